@@ -321,10 +321,19 @@ class Explorer:
             c2, st2 = self._mk()
             if self.pre_check:
                 self.pre_check(c2)
-            for x in tr:
+            rbad = None
+            for i, x in enumerate(tr):
                 with quiet():
                     self.step(c2, x)
-                self.check(c2, x)
+                d = self.check(c2, x)
+                if d is not None and rbad is None:
+                    rbad = (tr[:i + 1], d)
+            if rbad is not None:
+                # the plain re-execution on fresh objects violates although the snapshot/restore walk did not: the code
+                # under test keeps state the snapshot cannot see; the plain run is the reference -> report the violation
+                rbad[1]['note'] = 'observed on the plain re-execution of this trace on a freshly built system'
+                self.violations.append(('replay', rbad[0], rbad[1]))
+                return
             saved_c = self.c
             self.c = c2
             try:
